@@ -1250,3 +1250,52 @@ func argsOfParam(units []*FuncUnit, u *FuncUnit, e ast.Expr) []Site {
 	}
 	return out
 }
+
+// UnitOf returns the unit of a function declared (with a body) in the loaded program, or nil.
+func (p *Program) UnitOf(fn *types.Func) *FuncUnit {
+	fd := p.funcDecls[fn]
+	if fd == nil || fd.Body == nil {
+		return nil
+	}
+	return &FuncUnit{Fn: fn, Decl: fd, Pkg: p.declPkg[fd]}
+}
+
+// inlinedStr prints an expression with every local variable that has exactly one definition
+// replaced by the expression it was defined from (recursively, bounded): `ci, cj := h[i], h[j];
+// ci.f.Before(cj.f)` prints as `h[i].f.Before(h[j].f)`.
+func inlinedStr(u *FuncUnit, e ast.Expr) string {
+	var pr func(e ast.Expr, depth int) string
+	pr = func(e ast.Expr, depth int) string {
+		switch x := e.(type) {
+		case *ast.Ident:
+			if depth < 6 {
+				if r := resolveLocalAlias(u, x); r != ast.Expr(x) {
+					if _, isCall := ast.Unparen(r).(*ast.CallExpr); !isCall || depth < 3 {
+						return pr(r, depth+1)
+					}
+				}
+			}
+			return x.Name
+		case *ast.ParenExpr:
+			return "(" + pr(x.X, depth) + ")"
+		case *ast.SelectorExpr:
+			return pr(x.X, depth) + "." + x.Sel.Name
+		case *ast.IndexExpr:
+			return pr(x.X, depth) + "[" + pr(x.Index, depth) + "]"
+		case *ast.StarExpr:
+			return "*" + pr(x.X, depth)
+		case *ast.UnaryExpr:
+			return x.Op.String() + pr(x.X, depth)
+		case *ast.BinaryExpr:
+			return pr(x.X, depth) + " " + x.Op.String() + " " + pr(x.Y, depth)
+		case *ast.CallExpr:
+			var args []string
+			for _, a := range x.Args {
+				args = append(args, pr(a, depth))
+			}
+			return pr(x.Fun, depth) + "(" + strings.Join(args, ", ") + ")"
+		}
+		return exprStr(e)
+	}
+	return pr(e, 0)
+}
